@@ -56,9 +56,44 @@ def end_filter(R, f, rule):
                 "the collected value is not the yielded task's result")
 
 
+def decorator_binds(R, rule):
+    """@async_generator() is put on methods, too: what the decorator returns takes the place of the function in the class body, so
+    it has to bind like one (a function object is a descriptor; a functools.partial or a callable instance is not - obj.gen() would
+    call the body without self)."""
+    repo = R.repo
+    dec = repo.fn("generator.async_generator.decorator")
+    nested = set(n.name for n in dec.node.body if isinstance(n, (ast.FunctionDef, ast.AsyncFunctionDef)))
+    rets = [n for n in q.scope_nodes(dec.node) if isinstance(n, ast.Return) and n.value is not None]
+    ok = bool(rets)
+    what = []
+    for r in rets:
+        v = r.value
+        if isinstance(v, ast.Call) and isinstance(v.func, ast.Call) and (q.call_name(v.func) or "").split(".")[-1] == "wraps" and len(v.args) == 1:
+            v = v.args[0]       # functools.wraps(fun)(inner)
+        if isinstance(v, ast.Name) and v.id in nested:
+            continue
+        if isinstance(v, ast.Lambda):
+            continue
+        ok = False
+        what.append(q.src(r.value)[:70])
+    R.check(ok, rule, dec.qualname + ":binds", R.site(dec, rets[0] if rets else None),
+            "the decorator returns a function (it binds as a method)",
+            "the decorator returns `%s`, which is not a function object: it does not bind as a method, so a generator body written as a method is called "
+            "without self - obj.gen() raises TypeError and no Value can be obtained from it" % "; ".join(what))
+    # the returned function builds the generator from all the arguments it is given
+    for nm in nested:
+        fi = dec.nested.get(nm) if hasattr(dec, "nested") else None
+        if fi is None:
+            continue
+        calls = [c for c in q.calls(fi.node) if q.call_name(c) == q.param_names(dec.node)[0]]
+        full = any(any(isinstance(a, ast.Starred) for a in c.args) and any(k.arg is None for k in c.keywords) for c in calls)
+        R.check(full, rule, fi.qualname + ":forwards", R.site(fi), "the body is started with (*args, **kwargs)", "the body is not started with the caller's (*args, **kwargs)")
+
+
 def run(R):
     R.extra["explanation"] = EXPLANATION
     repo = R.repo
+    decorator_binds(R, "C17.VALUE-FLOW")
     log = repo.fn("generator.list_of_generator")
     tf = repo.fn("generator.take_first")
     for f in (log, tf):
